@@ -316,4 +316,31 @@ def ctorSig (cls : Cls) (init : ASig) : Option ASig := bindSelf { init with ret 
 def boundCall (tbl : ClassTable) (s : ASig) (self : Ty) (c : VCall) : Outcome :=
   checkCall tbl s { c with pos := self :: c.pos }
 
+/-! ### several `*iterable`s in one call — `preprocess_args` step 2 (signature.py: "we dump any single
+arguments that come after *args into *args, and we merge all *args")
+
+After step 1 the positional section is a list of single values and of `*xs` of unknown length (an
+element type). Everything from the first `*xs` on is merged into ONE element type `star_args`:
+a later single value `v` gives `unite_values(v, star_args)`, a later `*ys: t` gives
+`unite_values(t, star_args)`. -/
+
+/-- one item of the positional section: `(true, t)` = `*xs` with element type `t`, `(false, v)` = a
+single value -/
+abbrev PosItem := Bool × Ty
+
+def starStep (acc : Option Ty) (it : PosItem) : Option Ty :=
+  match acc, it with
+  | none, (true, t) => some t            -- the first `*xs`
+  | none, (false, _) => none             -- an ordinary positional
+  | some a, (_, v) => some (unite [v, a])
+
+/-- `ActualArguments.star_args` -/
+def starMerge (items : List PosItem) : Option Ty := items.foldl starStep none
+
+/-- the values that were merged: everything from the first star on -/
+def starContrib : List PosItem → List Ty
+  | [] => []
+  | (true, t) :: rest => t :: rest.map (·.2)
+  | (false, _) :: rest => starContrib rest
+
 end Pya.C06
